@@ -603,11 +603,14 @@ class RangeAnalysis:
             return self.binop(('bin', 'Lt', deref_arg(args[0]), ('c', 0x80, 'u8' if 'u8' in fn else 'u16')))
         if short == 'contains' and 'RangeInclusive' in fn and len(args) == 2:
             rng = strip_ref(args[0])
+            while rng[0] in ('deref', 'ref'):
+                rng = strip_ref(rng[1])
             item = strip_ref(args[1])
             bounds = None
             if rng[0] == 'call' and (rng[1] or '').endswith('::new') and len(rng[2]) == 2:
                 bounds = (rng[2][0], rng[2][1])
-            elif rng[0] == 'cptr' and rng[2] == 0 and '<u16>' in fn:
+            elif rng[0] == 'cptr' and rng[2] == 0 and ('<u16>' in fn or '<Idx>' in fn) and \
+                    len(self.facts.mems.get(str(__import__('json').loads(rng[1]).get('mem')), {}).get('bytes', '')) == 12:
                 import json as _json
                 tgt = _json.loads(rng[1])
                 raw = self.facts.mem_bytes(tgt['mem']) if 'mem' in tgt and str(tgt['mem']) in self.facts.mems else None
@@ -1006,11 +1009,22 @@ def scalar_predicates(facts, body):
     out = []
     res = Resolver(body)
 
-    def one(bi, cond, at, is_switch_int=False, targets=None):
+    res_named = Resolver(body)
+    res_named.stop_named = True
+
+    def one(bi, cond, at, is_switch_int=False, targets=None, remake=None):
         uniq = []
         for l in leaves(cond):
             if l not in uniq:
                 uniq.append(l)
+        if len(uniq) > 1 and remake is not None:
+            # a test of a value assembled from several inputs (`let unit = hi << 8 | lo; if unit & 0xFC00 == 0xD800`): judge it
+            # as a test of the program's own variable `unit`
+            cond = remake(res_named)
+            uniq = []
+            for l in leaves(cond):
+                if l not in uniq:
+                    uniq.append(l)
         if len(uniq) != 1:
             return
         leaf = uniq[0]
@@ -1046,20 +1060,20 @@ def scalar_predicates(facts, body):
     for bi, blk in enumerate(body.blocks):
         for si, st in enumerate(blk['s']):
             if 'assign' in st and 'bin' in st['rv'] and st['rv']['bin'] in CMP:
-                one(bi, res.rvalue(st['rv']), sp_str(st['sp']))
+                one(bi, res.rvalue(st['rv']), sp_str(st['sp']), remake=lambda rr, _st=st: rr.rvalue(_st['rv']))
         t = blk['t']
         if 'switch' in t and t.get('sty') != 'bool' and not t.get('variants'):
-            one(bi, res.operand(t['switch']), sp_str(blk['tsp']), True, t['targets'])
+            one(bi, res.operand(t['switch']), sp_str(blk['tsp']), True, t['targets'], remake=lambda rr, _t=t: rr.operand(_t['switch']))
         if 'call' in t and (t['call'].get('fn') or '') in ('in_range16', 'in_range32', 'in_inclusive_range8',
                                                            'in_inclusive_range16', 'in_inclusive_range32'):
             r2 = Resolver(body)
-            one(bi, r2.call(t, bi, 0), sp_str(blk['tsp']))
+            one(bi, r2.call(t, bi, 0), sp_str(blk['tsp']), remake=lambda rr, _t=t, _bi=bi: rr.call(_t, _bi, 0))
         elif 'call' in t:
             fn_ = t['call'].get('fn') or ''
             sh_ = fn_.rsplit('::', 1)[-1]
             if (sh_ == 'contains' and 'Range' in fn_ and 'core::ops' in fn_) or (sh_ == 'is_ascii' and fn_.startswith('core::num::')):
                 r2 = Resolver(body)
-                one(bi, r2.call(t, bi, 0), sp_str(blk['tsp']))
+                one(bi, r2.call(t, bi, 0), sp_str(blk['tsp']), remake=lambda rr, _t=t, _bi=bi: rr.call(_t, _bi, 0))
     return out
 
 
